@@ -281,6 +281,26 @@ func c16Exec(op string) string {
 			note("Maps.JsonFileIndent wrote other bytes than JsonStringIndent returns")
 		}
 	}
+	// the file forms with every argument form: what the file holds is what the string form returns
+	for _, safe := range []bool{false, true} {
+		if err := ms.JsonFile(f, safe); err == nil {
+			want, _ := ms.JsonString(safe)
+			if b, _ := os.ReadFile(f); string(b) != want {
+				note(fmt.Sprintf("Maps.JsonFile(file, %v) wrote other bytes than JsonString(%v) returns", safe, safe))
+			}
+		}
+		if err := ms.JsonFileIndent(f, pre, ind, safe); err == nil {
+			want, _ := ms.JsonStringIndent(pre, ind, safe)
+			if b, _ := os.ReadFile(f); string(b) != want {
+				note(fmt.Sprintf("Maps.JsonFileIndent(file, .., %v) wrote other bytes than JsonStringIndent returns", safe))
+			}
+		}
+	}
+	if err := ms.XmlFileIndent(f, pre, ind); err == nil {
+		if b, _ := os.ReadFile(f); string(b) != string(xi0)+string(xi2)+string(xi0) {
+			note("Maps.XmlFileIndent wrote other bytes than XmlStringIndent returns")
+		}
+	}
 	sort.Strings(notes)
 	return "ok | " + strings.Join(uniqStrings(notes), "; ")
 }
